@@ -25,7 +25,7 @@ pub struct VD {
 }
 
 pub fn kd(k: &MK) -> KD {
-    KD { id: k.id.0, heap: k.heap, tok: k.tok }
+    KD { id: k.id.id(), heap: k.heap, tok: k.tok }
 }
 
 pub fn vd(v: &MV) -> VD {
@@ -215,8 +215,8 @@ fn hook_part(cache: &Cache, snap: &mut Snap) {
     for node in &w.by_prev {
         match cache.verif_node_entry(node.addr) {
             Some((k, _)) => {
-                if cache.verif_find_addr(&k.id) != Some(node.addr) {
-                    snap.walk_err = Some(format!("lookup of key {} does not find its list node", k.id.0));
+                if cache.verif_find_addr(k.id) != Some(node.addr) {
+                    snap.walk_err = Some(format!("lookup of key {} does not find its list node", k.id.id()));
                     return;
                 }
             }
@@ -264,7 +264,7 @@ pub fn observe(cache: &Cache, full: bool) -> Snap {
             snap.ord.push(SE { k: kd(k), v: vd(v), esize: entry_size(k, v) });
         }
         for (k, _) in cache.iter().rev().take(limit) {
-            snap.rord.push(k.id.0);
+            snap.rord.push(k.id.id());
         }
         snap.lru = cache.peek_lru().map(|(k, v)| (kd(k), vd(v)));
         snap.mru = cache.peek_mru().map(|(k, v)| (kd(k), vd(v)));
@@ -276,7 +276,7 @@ pub fn observe(cache: &Cache, full: bool) -> Snap {
                 snap.walk_err = Some("forward and reverse iteration are not mirror images".to_owned());
             } else {
                 for e in &snap.ord {
-                    match cache.peek_entry(&KId(e.k.id)) {
+                    match cache.peek_entry(kq(e.k.id)) {
                         Some((k, v)) if kd(k) == e.k && vd(v) == e.v => {}
                         _ => {
                             snap.walk_err = Some(format!("lookup of iterated key {} disagrees", e.k.id));
@@ -354,7 +354,7 @@ pub struct World {
 }
 
 pub fn params_line() -> String {
-    let k = MK { id: KId(0), heap: 0, tok: 0 };
+    let k = MK { id: KId::of(0, false), heap: 0, tok: 0 };
     let v = MV { heap: 0, tok: 0 };
     with_ctx(|c| c.quiet = true);
     let ovh = entry_size(&k, &v);
@@ -364,7 +364,7 @@ pub fn params_line() -> String {
 }
 
 pub fn ovh() -> usize {
-    let k = MK { id: KId(0), heap: 0, tok: 0 };
+    let k = MK { id: KId::of(0, false), heap: 0, tok: 0 };
     let v = MV { heap: 0, tok: 0 };
     with_ctx(|c| c.quiet = true);
     let ovh = entry_size(&k, &v);
@@ -695,22 +695,22 @@ fn run_op(cache: &mut Cache, op: &OpKind) -> Ret {
                 }
             }
         }
-        OpKind::Get(id) => Ret::RefVal(cache.get(&KId(*id)).map(vd)),
-        OpKind::GetE(id) => Ret::RefPair(cache.get_entry(&KId(*id)).map(|(k, v)| (kd(k), vd(v)))),
+        OpKind::Get(id) => Ret::RefVal(cache.get(kq(*id)).map(vd)),
+        OpKind::GetE(id) => Ret::RefPair(cache.get_entry(kq(*id)).map(|(k, v)| (kd(k), vd(v)))),
         OpKind::Touch(id) => {
-            cache.touch(&KId(*id));
+            cache.touch(kq(*id));
             Ret::Unit
         }
-        OpKind::Peek(id) => Ret::RefVal(cache.peek(&KId(*id)).map(vd)),
-        OpKind::PeekE(id) => Ret::RefPair(cache.peek_entry(&KId(*id)).map(|(k, v)| (kd(k), vd(v)))),
-        OpKind::Has(id) => Ret::Bool(cache.contains(&KId(*id))),
+        OpKind::Peek(id) => Ret::RefVal(cache.peek(kq(*id)).map(vd)),
+        OpKind::PeekE(id) => Ret::RefPair(cache.peek_entry(kq(*id)).map(|(k, v)| (kd(k), vd(v)))),
+        OpKind::Has(id) => Ret::Bool(cache.contains(kq(*id))),
         OpKind::Rm(id) => {
-            let v = cache.remove(&KId(*id));
+            let v = cache.remove(kq(*id));
             let d = v.as_ref().map(vd);
             hold(v);
             Ret::OwnVal(d)
         }
-        OpKind::RmE(id) => own_pair(cache.remove_entry(&KId(*id))),
+        OpKind::RmE(id) => own_pair(cache.remove_entry(kq(*id))),
         OpKind::RmLru => own_pair(cache.remove_lru()),
         OpKind::RmMru => own_pair(cache.remove_mru()),
         OpKind::GetLru => Ret::RefPair(cache.get_lru().map(|(k, v)| (kd(k), vd(v)))),
@@ -738,7 +738,7 @@ fn run_op(cache: &mut Cache, op: &OpKind) -> Ret {
             Ret::Unit
         }
         OpKind::MutSet { id, h } => {
-            let r = cache.mutate(&KId(*id), |v| {
+            let r = cache.mutate(kq(*id), |v| {
                 note_closure(v);
                 let old = v.heap;
                 v.heap = *h;
@@ -747,7 +747,7 @@ fn run_op(cache: &mut Cache, op: &OpKind) -> Ret {
             mutate_ret(r)
         }
         OpKind::MutRep { id, h, tok } => {
-            let r = cache.mutate(&KId(*id), |v| {
+            let r = cache.mutate(kq(*id), |v| {
                 note_closure(v);
                 let old = v.heap;
                 *v = MV::with_tok(*h, *tok);
@@ -768,7 +768,7 @@ fn run_op(cache: &mut Cache, op: &OpKind) -> Ret {
         OpKind::RetainIds(ids) => {
             cache.retain(|k, v| {
                 note_pred(k, v);
-                !ids.contains(&k.id.0)
+                !ids.contains(&k.id.id())
             });
             Ret::Unit
         }
@@ -918,9 +918,9 @@ fn run_shared(cache: &Cache, step: u64) -> String {
     let len = cache.len() as u64;
     let id = (step >> 8) as u32 % (len as u32 + 6);
     match step % 13 {
-        0 => format!("peek {:?}", cache.peek(&KId(id)).map(vd)),
-        1 => format!("peeke {:?}", cache.peek_entry(&KId(id)).map(|(k, v)| (kd(k), vd(v)))),
-        2 => format!("has {}", cache.contains(&KId(id))),
+        0 => format!("peek {:?}", cache.peek(kq(id)).map(vd)),
+        1 => format!("peeke {:?}", cache.peek_entry(kq(id)).map(|(k, v)| (kd(k), vd(v)))),
+        2 => format!("has {}", cache.contains(kq(id))),
         3 => format!("lru {:?}", cache.peek_lru().map(|(k, v)| (kd(k), vd(v)))),
         4 => format!("mru {:?}", cache.peek_mru().map(|(k, v)| (kd(k), vd(v)))),
         5 => format!("nums {} {} {} {} {}", cache.len(), cache.is_empty(), cache.current_size(), cache.max_size(), cache.capacity()),
